@@ -42,20 +42,20 @@ func init() {
 			fr.p.mapOrderNondet = a[0].(*Term).IsTrue()
 			return nil
 		},
-		"vConc":     hConc,
-		"vIsSymbolic": func(fr *frame, a []Value) Value { return fr.w.tt.BoolC(fr.p.pinned == nil) },
-		"vYield":    func(fr *frame, a []Value) Value { fr.p.yield("vYield"); return nil },
+		"vConc":        hConc,
+		"vIsSymbolic":  func(fr *frame, a []Value) Value { return fr.w.tt.BoolC(fr.p.pinned == nil) },
+		"vYield":       func(fr *frame, a []Value) Value { fr.p.yield("vYield"); return nil },
 		"vAtomicBegin": func(fr *frame, a []Value) Value { fr.p.atomicDepth++; return nil },
 		"vAtomicEnd":   func(fr *frame, a []Value) Value { fr.p.atomicDepth--; return nil },
-		"vUF":       hUF,
-		"vSetField": hSetField,
-		"vGetField": hGetField,
-		"vIte":      hIte,
+		"vUF":          hUF,
+		"vSetField":    hSetField,
+		"vGetField":    hGetField,
+		"vIte":         hIte,
 		"vSchedBound": func(fr *frame, a []Value) Value {
 			fr.p.preemptBound = int(fr.p.concInt(a[0].(*Term)))
 			return nil
 		},
-		"vDone":     func(fr *frame, a []Value) Value { fr.p.abort(abortDone, "vDone"); return nil },
+		"vDone": func(fr *frame, a []Value) Value { fr.p.abort(abortDone, "vDone"); return nil },
 	}
 }
 
@@ -453,7 +453,6 @@ func init() {
 		return nil
 	}
 }
-
 
 // Process stop: vStop() stops the whole (modelled) process at this point - no deferred function of the
 // program under test runs, all goroutines end. vRunUntilStop(f) runs f and reports whether it was stopped.
